@@ -73,8 +73,8 @@ def run(ctx):
                 h = [x for x in subterms(entry[0].args[1]) if x.op == "call" and B.cname(x) == "HashToPoint::hash_to_point"][0]
                 dstp = B.peel(h.a[1][1])
                 ctx.ob("E5.equation", fk + "/dst", dstp.op == "param" and dstp.a[1] == "dst", "per-entry hash uses the caller's tag unmodified: %s" % show(dstp, 3), where=where(f))
-            for h, ok, detail in F.loops_push_every_iteration(f):
-                ctx.ob("E4.loop", fk + "/every-entry", ok, "every iteration of the pair loop accumulates or leaves through Err: " + detail, where=where(f, h))
+            for h, ok, detail in F.loops_push_every_iteration(f, accept=lambda s: s.callee[0] == "Vec::<T, A>::push" and any(x.op == "call" and B.cname(x) == "HashToPoint::hash_to_point" for x in subterms(s.args[1]))):
+                ctx.ob("E4.loop", fk + "/every-entry", ok, "every iteration of the pair loop pushes its own (hash_to_point(msg,dst), pk) pairing input or leaves through Err: " + detail, where=where(f, h))
             F.check_no_dropping_adapters(ctx, "E7.adapters", P, [fk])
     # 2. pass-through chain: wrappers -> scheme trait methods
     for fk in ("Signature<C>::verify", "MultiSignature<C>::verify", "PublicKeyShare<C>::verify", "ProofOfPossession<C>::verify", "SignatureShare<C>::verify"):
